@@ -398,5 +398,7 @@ def run(ck):
     ck.run_rule("C05.R7", "character literal packing", 2, rule_R7)
     ck.run_rule("C05.R9", "bracket transparency", 3, rule_R9)
     from . import c03
+    from . import c15 as _c15
+    ck.run_rule("C15.pack", "^R literals: one to three characters, left-justified (pack_to_int pads with blanks)", 4, _c15.rule_pack)
     ck.run_rule("C03.R7", "LinearPolynomial arithmetic used when an operand is address-valued", 18, c03.rule_R7)
     ck.run_rule("C03.R6", "operators applied to not-yet-known operands later apply the same operation", 9, c03.rule_R6)
